@@ -59,6 +59,10 @@ func (k Keeper) Withdraw(ctx sdk.Context, order ordertypes.Order) (sdk.Coin, err
 			if err != nil {
 				return sdk.Coin{}, err
 			}
+		} else if shard.Status == ordertypes.ShardCompleted && shard.OrderId < order.Id {
+			// a renewal that was paid for but whose period has not started yet: nothing of it
+			// has been earned, refund the whole term for this shard
+			refundDec = refundDec.Add(shardIncomePerBlock.MulInt64(int64(order.Duration)))
 		} else if shard.Status == ordertypes.ShardWaiting {
 			// refundDec += price * shardSize * shardDuration
 			refundDec = refundDec.Add(shardIncomePerBlock.MulInt64(int64(order.Duration)))
